@@ -51,10 +51,10 @@ PversOf(type) ==
            [] type = "feefilter" -> <<70012, 70013, 70016>>
            [] type \in {"sendaddrv2", "wtxidrelay", "addrv2"} -> <<70015, 70016, 70017>>
            [] OTHER -> <<70016>>
-\* the message encoding matters to transactions and blocks only: both there, alternating elsewhere
+\* the message encoding matters to transactions and blocks only: the quick tier offers the other
+\* types under the witness encoding, the thorough tier under both
 EncsOf(type, pver) ==
-    IF type \in {"tx", "block"} THEN <<"base", "witness">>
-    ELSE IF Thorough /\ pver % 2 = 1 THEN <<"base">> ELSE <<"witness">>
+    IF type \in {"tx", "block"} \/ Thorough THEN <<"base", "witness">> ELSE <<"witness">>
 
 -----------------------------------------------------------------------------
 (* shapes: the values of each type that are enumerated *)
